@@ -415,6 +415,9 @@ class C17Executor(Executor):
         o = self._ol(st, v)
         if o is not None:
             return VBool(True) if o.data["tail"] else VBool(o.data["blen"] > 0)
+        if isinstance(v, VExt) and v.sort == "Bytes":
+            from contracts import C17_glue as G
+            return VBool(G.NONEMPTY(v.t))           # b"" is false (round 6; the engine's default for an abstract value is True)
         return super().truth(st, v)
 
     def b_len(self, st, args, kwargs, node):
@@ -424,6 +427,10 @@ class C17Executor(Executor):
         return super().b_len(st, args, kwargs, node)
 
     def get_index(self, st, base, idx, node):
+        if isinstance(base, VExt) and base.sort == "AttrDict":
+            # round 6: attrs[name] -- any value (str or None); KeyError when absent
+            self.exc_any(st.fork(), f"{self.loc(node)} attribute lookup")
+            return [(st.fork(), VUnk("attr_value")), (st, VStr(z3.String(fresh_name("attr_value"))))]
         o = self._ol(st, base)
         if o is None:
             return super().get_index(st, base, idx, node)
@@ -437,6 +444,10 @@ class C17Executor(Executor):
             return self.ol_top(st, base, node)
         if c == 0 and o.data["root"] is not None and not self.feasible(st.pc, o.data["blen"] < 1):
             return [(st, VRef(o.data["root"]))]
+        if c is not None and c >= 0 and o.data["ekind"] == "str" and not tail and o.data["root"] is None:
+            # round 6: piece c of a split result: some string; IndexError when there are fewer pieces
+            s2 = self.fork_raise(st, o.data["blen"] <= c, "IndexError")
+            return [] if s2 is None else [(s2, VStr(z3.String(fresh_name("piece"))))]
         self.unsupported(node, f"index {c} of open list")
 
     def ol_top(self, st, base, node):
@@ -508,6 +519,18 @@ class C17Executor(Executor):
                 parts = [n.key, n.value, n.generators[0].target] + list(n.generators[0].ifs)
                 if all(isinstance(x, pure) for p in parts for x in ast.walk(p)):
                     return [(r[0][0], VExt("AttrDict"))]   # pure comprehension over (name, value) pairs: cannot raise
+                if self._pure_comprehension(n):
+                    # round 6: str methods on the loop variables (`k.lower()`): still a dict of attribute values; a method on a
+                    # value may meet None -> may raise
+                    # value may meet None -> may raise; a total str method on the NAME (first component, always a str) cannot
+                    tgt = n.generators[0].target
+                    name_var = tgt.elts[0].id if isinstance(tgt, ast.Tuple) and len(tgt.elts) == 2 and isinstance(tgt.elts[0], ast.Name) else None
+                    total = all(isinstance(x.func, ast.Attribute) and isinstance(x.func.value, ast.Name) and x.func.value.id == name_var
+                                and x.func.attr in ("lower", "upper", "casefold", "strip") and not x.args and not x.keywords
+                                for p in parts for x in ast.walk(p) if isinstance(x, ast.Call))
+                    if not total:
+                        self.exc_any(r[0][0].fork(), f"{self.loc(n)} method call on an attribute value in a comprehension")
+                    return [(r[0][0], VExt("AttrDict"))]
         return super().e_DictComp(n, st)
 
 
@@ -518,6 +541,8 @@ class C17Executor(Executor):
         self.opaque_str = opaque_str        # only for the contract that asks for it (EXECUTOR_KW); other users are unaffected
 
     def contains(self, st, container, item, node):
+        if isinstance(container, VExt) and container.sort == "AttrDict":
+            return [(st, VBool(z3.Bool(fresh_name("has_attr"))))]       # round 6: any attribute may or may not be present
         if self.opaque_str and isinstance(container, VStr) and isinstance(item, VStr) and container.const() is None:
             return [(st, VBool(STR_HAS(container.t, item.t)))]
         return super().contains(st, container, item, node)
@@ -547,6 +572,9 @@ EXECUTOR = C17Executor
 EXECUTOR_KW = {f"{MSG}::_looks_like_html": {"opaque_str": True}}
 from contracts import C17_glue as _G  # noqa: E402
 EXECUTOR_KW.update({t: dict(_G.GLUE_KW) for t in _G.TARGETS})
+# round 6: which strategy decides in _extract_from_mhtml -- helpers are NOT executed in place (their result is any value; the clause is
+# about the order of the strategies, and two inlined scans multiply to > 20000 paths); a low path limit keeps `unknown` cheap
+EXECUTOR_KW[f"{MHTML}::_extract_from_mhtml"] = dict(_G.GLUE_KW, inline_local=False, max_paths=3000)
 
 
 def m_lower(ex, st, args, kwargs, node):
@@ -558,7 +586,7 @@ def m_lower(ex, st, args, kwargs, node):
 def m_split(ex, st, args, kwargs, node):
     v, blen = mk_olist(ex, st, fresh_name("split"), "str")
     st.heap[v.ref].fresh = True
-    st.assume(blen >= 0)
+    st.assume(blen >= (1 if len(args) >= 2 and not isinstance(args[1], VNoneT) else 0))     # with a separator: never empty
     return [(st, v)]
 
 
